@@ -13,6 +13,10 @@
 #include <xercesc/framework/XMLGrammarPoolImpl.hpp>
 #include <xercesc/framework/XMLPScanToken.hpp>
 #include <xercesc/parsers/SAXParser.hpp>
+#include <xercesc/parsers/SAX2XMLReaderImpl.hpp>
+#include <xercesc/sax2/Attributes.hpp>
+#include <xercesc/sax2/DefaultHandler.hpp>
+#include <xercesc/util/XMLUni.hpp>
 #include <xercesc/parsers/XercesDOMParser.hpp>
 #include <xercesc/sax/HandlerBase.hpp>
 #include <xercesc/util/PlatformUtils.hpp>
@@ -72,13 +76,29 @@ static void prepare_pool() {
     g_pool->lockPool();
 }
 
+struct Sax2CountH : public DefaultHandler {
+    std::string log;
+    void startElement(const XMLCh* const uri, const XMLCh* const local, const XMLCh* const, const Attributes& a) override {
+        log += "<{" + narrow16(uri) + "}" + narrow16(local);
+        for (XMLSize_t i = 0; i < a.getLength(); i++) log += " {" + narrow16(a.getURI(i)) + "}" + narrow16(a.getLocalName(i)) + "=" + narrow16(a.getValue(i));
+        log += ">";
+    }
+    void characters(const XMLCh* const c, const XMLSize_t n) override { for (XMLSize_t i = 0; i < n; i++) log += (c[i] < 0x80 ? (char)c[i] : '?'); }
+    void startPrefixMapping(const XMLCh* const p, const XMLCh* const u) override { log += "[+" + narrow16(p) + "=" + narrow16(u) + "]"; }
+    void error(const SAXParseException& e) override { log += "[E:" + narrow16(e.getMessage()) + "]"; }
+    void fatalError(const SAXParseException& e) override { log += "[F:" + narrow16(e.getMessage()) + "]"; }
+    void warning(const SAXParseException&) override {}
+};
+// parsers on the shared locked pool use SAX2 with namespaces: every element/attribute event resolves URI ids to text through the
+// pool's (synchronized) URI string pool, and documents bring namespace URIs the pool did not know when it was locked
 static std::string parse_with_pool(const char* doc, bool schema) {
-    SAXParser p(0, XMLPlatformUtils::fgMemoryManager, g_pool);
-    CountH h;
-    p.setDocumentHandler(&h); p.setErrorHandler(&h);
-    p.setDoNamespaces(true); p.setDoSchema(schema);
-    p.setValidationScheme(SAXParser::Val_Always);
-    p.useCachedGrammarInParse(true);
+    SAX2XMLReaderImpl p(XMLPlatformUtils::fgMemoryManager, g_pool);
+    Sax2CountH h;
+    p.setContentHandler(&h); p.setErrorHandler(&h);
+    p.setFeature(XMLUni::fgSAX2CoreNameSpaces, true);
+    p.setFeature(XMLUni::fgSAX2CoreValidation, true);
+    p.setFeature(XMLUni::fgXercesSchema, schema);
+    p.setFeature(XMLUni::fgXercesUseCachedGrammarInParse, true);
     MemBufInputSource s((const XMLByte*)doc, strlen(doc), "doc.xml");
     try { p.parse(s); } catch (const XMLException& e) { h.log += "[X:" + narrow16(e.getMessage()) + "]"; } catch (...) { h.log += "[X?]"; }
     return h.log;
@@ -107,10 +127,10 @@ struct Scenario { const char* name; const char* what; std::vector<Body> bodies; 
 static std::string s1_a() { return regex_body("\\p{L}+\\p{Nd}", "X", {"ab1", "a", "1"}); }
 static std::string s1_b() { return regex_body("[\\P{L}-[0-9]]+", "X", {"--", "a", "1"}); }
 static std::string s1_c() { return regex_body("\\p{IsGreek}|\\p{Lu}x", "X", {"Ax", "ax", "\xCE"}); }
-static std::string s2_a() { return parse_with_pool("<r xmlns='urn:t'><a><c>x</c><e>Ab</e></a><b>1</b></r>", true); }
-static std::string s2_b() { return parse_with_pool("<r xmlns='urn:t' xmlns:n='urn:new1'><a><e>ab</e></a><a/><a/><a/></r>", true); }
-static std::string s2_c() { return parse_with_pool("<!DOCTYPE r SYSTEM 'd.dtd'><r><a>t<c/></a><b/><b/></r>", false); }
-static std::string s2_d() { return parse_with_pool("<!DOCTYPE r SYSTEM 'd.dtd'><r xmlns:n='urn:new2'><a/><a>u</a></r>", false); }
+static std::string s2_a() { return parse_with_pool("<r xmlns='urn:t' xmlns:m='urn:m1' m:q='1'><a><c>x</c><e>Ab</e><m:x xmlns:m2='urn:m2' m2:y='2'/></a><b>1</b></r>", true); }
+static std::string s2_b() { return parse_with_pool("<r xmlns='urn:t' xmlns:n='urn:new1'><a><e>ab</e><n:x n:k='v' xmlns:n3='urn:new3'><n3:y/></n:x></a><a/><a/><a/></r>", true); }
+static std::string s2_c() { return parse_with_pool("<!DOCTYPE r SYSTEM 'd.dtd'><r xmlns:o='urn:o1' o:z='1'><a>t<c/></a><b/><b/></r>", false); }
+static std::string s2_d() { return parse_with_pool("<!DOCTYPE r SYSTEM 'd.dtd'><r xmlns:n='urn:new2' n:w='2'><a/><a xmlns:n4='urn:new4' n4:v='3'>u</a></r>", false); }
 static std::string s3_a() {
     std::string o;
     DOMImplementation* impl = DOMImplementationRegistry::getDOMImplementation(W("Core"));
